@@ -68,14 +68,14 @@ Print Assumptions first_line_is_a_header_refuted.
 
 (* ---- 3. the codes ---- *)
 Theorem code_range : forall text rs id codes c,
-  parse text = Ok rs -> In (id, codes) rs -> In c codes ->
-  (c <= 15 \/ c = 30 \/ c = 32) /\ (~ In 96 text -> c <= 15 \/ c = 30).
+  parse text = Ok rs -> In (id, codes) rs -> In c codes -> c <= 15 \/ c = 30.
 Proof. exact Fasta_proofs.code_range_parse. Qed.
 Print Assumptions code_range.
 
-(* the one entry of CNV_NUM that is neither a code nor 30: the backquote (byte 96) is kept by `c > 64` and maps
-   to 32 (the table's filler ' '); like 30 it is read back as N *)
-Example backquote_is_code_32 : keep 96 = true /\ cnv 96 = 32 /\ out_letter 32 = 78 /\ cnv 64 = 32 /\ keep 64 = false.
+(* regression (1a45edb): the backquote (byte 96) is kept by `c > 64`; its table entry used to be the filler ' ' (32),
+   a code the LZ decoder cannot read back; it is 30 now, like the other kept non-letters.  Entry 64 ('@', dropped by
+   `c > 64`) is still the filler and never read *)
+Example backquote_is_code_30 : keep 96 = true /\ cnv 96 = 30 /\ out_letter 30 = 78 /\ cnv 64 = 32 /\ keep 64 = false.
 Proof. vm_compute. repeat split; reflexivity. Qed.
 
 (* ---- 4. extraction shows the normal form ---- *)
